@@ -2,12 +2,17 @@ package multiplex
 
 import (
 	"encoding/binary"
+	"errors"
 	"fmt"
+	"net"
+	"net/http"
+	"net/url"
 	"testing"
 	"testing/synctest"
 
 	"github.com/cbeuw/Cloak/internal/common"
 	vk "github.com/cbeuw/Cloak/internal/verifkit"
+	"github.com/gorilla/websocket"
 )
 
 // C11 (5) Transport: "arbitrary byte strings of length 0..buffer size ... are dropped without effect and later valid
@@ -20,6 +25,54 @@ import (
 type c11Transport struct {
 	Method byte
 	Len    int
+	// WS: the connection is of the CDN (WebSocket) transport: a real gorilla upgrade over the link, the three
+	// messages are binary WebSocket messages (lengths below the buffer size: a message that fills the buffer
+	// exactly cannot be told from one that is too large and is reported as an error by design)
+	WS bool `json:",omitempty"`
+}
+
+type c11OneShotListener struct {
+	c    net.Conn
+	used bool
+	done chan struct{}
+}
+
+func (l *c11OneShotListener) Accept() (net.Conn, error) {
+	if !l.used {
+		l.used = true
+		return l.c, nil
+	}
+	<-l.done
+	return nil, errors.New("closed")
+}
+func (l *c11OneShotListener) Close() error   { return nil }
+func (l *c11OneShotListener) Addr() net.Addr { return &net.TCPAddr{} }
+
+// c11WSPair performs a real WebSocket upgrade over the link and returns (peer end, session end).
+func c11WSPair(l *vk.Link) (*websocket.Conn, *common.WebSocketConn, func(), error) {
+	ln := &c11OneShotListener{c: l.B, done: make(chan struct{})}
+	srvCh := make(chan *websocket.Conn, 1)
+	go http.Serve(ln, http.HandlerFunc(func(w http.ResponseWriter, r *http.Request) {
+		up := websocket.Upgrader{}
+		c, err := up.Upgrade(w, r, nil)
+		if err != nil {
+			srvCh <- nil
+			return
+		}
+		srvCh <- c
+	}))
+	u, _ := url.Parse("ws://example.com/")
+	cc, _, err := websocket.NewClient(l.A, u, http.Header{}, 16480, 16480)
+	if err != nil {
+		close(ln.done)
+		return nil, nil, nil, err
+	}
+	sc := <-srvCh
+	if sc == nil {
+		close(ln.done)
+		return nil, nil, nil, errors.New("upgrade failed")
+	}
+	return cc, &common.WebSocketConn{Conn: sc}, func() { close(ln.done) }, nil
 }
 
 func c11TransportRun(t *testing.T, c c11Transport) error {
@@ -33,23 +86,45 @@ func c11TransportRun(t *testing.T, c c11Transport) error {
 		l := vk.NewLink(0, false)
 		l.SetAuto(vk.AtoB, true)
 		l.SetAuto(vk.BtoA, true)
-		sesh.AddConnection(common.NewTLSConn(l.B))
+		var peer *websocket.Conn
+		if c.WS {
+			cc, sc, done, err := c11WSPair(l)
+			if err != nil {
+				verr = fmt.Errorf("harness: websocket upgrade: %v", err)
+				return
+			}
+			defer done()
+			peer = cc
+			sesh.AddConnection(sc)
+		} else {
+			sesh.AddConnection(common.NewTLSConn(l.B))
+		}
 		defer l.A.Close()
 		record := func(body []byte) []byte {
+			if c.WS {
+				return body
+			}
 			r := make([]byte, 5+len(body))
 			r[0], r[1], r[2] = 0x17, 0x03, 0x03
 			binary.BigEndian.PutUint16(r[3:5], uint16(len(body)))
 			copy(r[5:], body)
 			return r
 		}
+		put := func(msg []byte) {
+			if c.WS {
+				peer.WriteMessage(websocket.BinaryMessage, msg)
+				return
+			}
+			l.A.Write(msg)
+		}
 		send := func(seq uint64, b byte) {
-			l.A.Write(record(c11Encode(&obfs, &Frame{StreamID: 1, Seq: seq, Payload: []byte{b, b, b}})))
+			put(record(c11Encode(&obfs, &Frame{StreamID: 1, Seq: seq, Payload: []byte{b, b, b}})))
 		}
 		send(0, 'a')
 		synctest.Wait()
 		garbage := make([]byte, c.Len)
 		vFill(garbage, uint64(c.Len)*977+uint64(c.Method), 0)
-		l.A.Write(record(garbage))
+		put(record(garbage))
 		synctest.Wait()
 		send(1, 'b')
 		synctest.Wait()
@@ -57,7 +132,7 @@ func c11TransportRun(t *testing.T, c c11Transport) error {
 			return // no authentication: only "no crash" is demanded
 		}
 		if sesh.IsClosed() {
-			verr = vk.ViolateSig("garbage-breaks-session", "a %d-byte garbage record on a direct-transport connection (method %s) closed the session (%q); it must be dropped without effect", c.Len, vMethodNames[c.Method], sesh.TerminalMsg())
+			verr = vk.ViolateSig("garbage-breaks-session", "a %d-byte garbage message on a connection (websocket=%v, method %s) closed the session (%q); it must be dropped without effect", c.Len, c.WS, vMethodNames[c.Method], sesh.TerminalMsg())
 			return
 		}
 		var st *Stream
@@ -124,6 +199,15 @@ func TestVerif_C11_Transport(t *testing.T) {
 				}
 				vk.AddDistinct(prop, sub, k, 1, "method="+vMethodNames[m])
 				k++
+				if n < bufSize {
+					c.WS = true
+					if err := one(c); err != nil {
+						fail(c, err)
+						return
+					}
+					vk.AddDistinct(prop, sub, k, 1, "websocket")
+					k++
+				}
 			}
 		}
 		vk.SetExhaustive(prop, sub, true)
